@@ -5,170 +5,205 @@ GUAR = ["guarV1", "guarV2", "migration", "lockedGuar", "nftGuar"]
 
 ANY = "*"
 
-# Which disagreement fields belong to which property.
-#  R: result-line field -> endpoints for which it matters (ANY = all)
-#  D: dump keys (globals, or "addr.<key>")
+# Which disagreement belongs to which property.
+#  R: result-line field -> endpoints for which it matters (ANY = all); for the status field an
+#     entry may be (endpoints, [message fragments]): then the disagreement is relevant only if
+#     one side's rejection message contains one of the fragments (a vesting bug that makes a
+#     claim fail is not a permission problem).
+#  D: dump key -> endpoints whose (committed) execution directly preceded the dump
+STAGE_MSGS = ["period", "before winner selection", "already filtered", "Must filter", "already selected",
+              "Must select winners", "Already distributed", "Already selected NFT", "Already performed",
+              "Cannot change start round", "Start round cannot be in the past", "start round must be",
+              "Claim period must be", "invalid time periods", "Winner selection start round"]
+PERM_MSGS = ["only be called by owner", "Permission denied", "only be called by user accounts"]
+PAUSE_MSGS = ["Contract is paused"]
+FUNDS_MSGS = ["insufficient funds", "cannot subtract", "negative", "balance - needed", "claimable - claimed"]
+RESERVE_MSGS = ["Too many users with guaranteed", "Not enough winning tickets", "Number of winning tickets exceeded",
+                "panic", "total_guaranteed"]
+SELECT_EPS = {"filter", "select", "distribute", "selectNft", "secondary"}
+ALLOC_EPS = {"addTickets", "addTicketsV1", "addTicketsV2"}
+BL_EPS = {"blacklist", "refundUsers", "unblacklist"}
+
 PROPS = {
     "C01": dict(
         title="Ticket-payment solvency",
         lean=["LP.Props.C01"],
         profiles=[("life", ALL_VARIANTS)],
-        R={"xf": {"claim", "claimPayment", "blacklist", "refundUsers"}, "st": {"claim", "claimPayment"}},
-        D={"bal", "cpay", "price", "addr.conf", "addr.win", "cnft"},
+        R={"xf.pay": {"claim", "claimPayment", "blacklist", "refundUsers"},
+           "st": ({"claim", "claimPayment"}, FUNDS_MSGS)},
+        D={"bal.pay": ANY, "cpay": ANY, "price": {"claim", "claimPayment", "confirm", "select", "distribute", "secondary"}},
     ),
     "C02": dict(
         title="Launchpad-token solvency",
         lean=["LP.Props.C02"],
         profiles=[("life", ALL_VARIANTS)],
-        R={"st": {"deposit", "claimPayment"}, "xf": {"claim", "claimPayment"}, "lock": ANY},
-        D={"bal", "tdep", "dep", "per", "addr.ut", "addr.uc"},
+        R={"st": [({"deposit"}, None), ({"claim", "claimPayment"}, FUNDS_MSGS)],
+           "xf.lp": {"claim", "claimPayment"}, "lock": ANY},
+        D={"bal.lp": ANY, "tdep": ANY, "dep": ANY, "per": {"deposit", "claim", "claimPayment"}},
     ),
     "C03": dict(
         title="Exactly min(T, confirmed) distinct winners",
         lean=["LP.Props.C03base"],
         profiles=[("life", ALL_VARIANTS), ("fy", ["base", "guarV2"])],
         R={"ret": {"select", "distribute", "secondary"}},
-        D={"nrw", "status", "cpay", "last", "addr.win"},
+        D={"nrw": SELECT_EPS, "status": SELECT_EPS, "cpay": SELECT_EPS, "last": SELECT_EPS, "addr.win": SELECT_EPS},
     ),
     "C04": dict(
         title="Interrupted operations resume to the same result",
         lean=["LP.Props.C04loop", "LP.Props.C08"],
         profiles=[("chunks", ALL_VARIANTS), ("life", ALL_VARIANTS)],
-        R={"ret": {"filter", "select", "distribute", "selectNft", "secondary"},
-           "st": {"filter", "select", "distribute", "selectNft", "secondary"},
-           "draws": ANY},
-        D={"op", "status", "p2i", "batch", "flags", "nrw", "last", "cpay", "wl", "payers", "nftw", "cnft",
-           "addr.range", "addr.win"},
+        R={"ret": SELECT_EPS, "st": (SELECT_EPS, None), "draws": SELECT_EPS},
+        D={k: SELECT_EPS for k in ["op", "status", "p2i", "batch", "flags", "nrw", "last", "cpay", "wl", "payers",
+                                   "nftw", "cnft", "addr.range", "addr.win"]},
     ),
     "C05": dict(
         title="Faithful, unbiased partial Fisher-Yates",
         lean=["LP.Props.C05"],
         profiles=[("fy", ["base", "guarV2", "nft"]), ("life", ["base", "locked", "guarV1"])],
         R={"draws": {"select"}},
-        D={"status", "p2i", "addr.win"},
+        D={"status": {"select"}, "p2i": {"select"}, "addr.win": {"select"}},
     ),
     "C06": dict(
         title="Lifecycle gating and monotonicity",
         lean=["LP.Props.C06gates", "LP.Props.C06stage"],
         profiles=[("timeline", ALL_VARIANTS), ("life", ALL_VARIANTS)],
-        R={"st": ANY},
-        D={"flags", "cfg"},
+        R={"st": (ANY, STAGE_MSGS)},
+        D={"cfg": ANY},
     ),
     "C07": dict(
         title="Confirmation: exact payment, within allocation",
         lean=["LP.Props.C07"],
         profiles=[("life", ALL_VARIANTS)],
-        R={"st": {"confirm"}, "ev": {"confirm"}, "xf": {"confirm"}},
-        D={"addr.conf", "bal"},
+        R={"st": ({"confirm"}, None), "ev": {"confirm"}, "xf": {"confirm"}},
+        D={"addr.conf": {"confirm"}, "bal.pay": {"confirm"}},
     ),
     "C08": dict(
         title="Filtering keeps exactly the confirmed tickets",
         lean=["LP.Props.C08"],
         profiles=[("life", ALL_VARIANTS)],
-        R={"ret": {"filter"}, "st": {"filter"}},
-        D={"addr.range", "addr.tix", "last", "nrw", "batch"},
+        R={"ret": {"filter"}, "st": ({"filter"}, None)},
+        D={k: {"filter"} for k in ["addr.range", "addr.tix", "last", "nrw", "batch"]},
     ),
     "C09": dict(
         title="Each participant settles exactly once",
         lean=["LP.Props.C09"],
         profiles=[("life", ALL_VARIANTS)],
-        R={"st": {"claim"}, "xf": {"claim"}, "lock": {"claim"}, "sft": {"claim"}},
-        D={"addr.cl", "addr.ut", "addr.uc", "addr.win"},
+        R={"st": ({"claim"}, None), "xf": {"claim"}, "lock": {"claim"}, "sft": {"claim"}},
+        D={k: {"claim"} for k in ["addr.cl", "addr.ut", "addr.uc", "addr.win", "addr.range", "addr.conf"]},
     ),
     "C10": dict(
         title="Blacklisting refunds in full and excludes; un-blacklisting restores",
         lean=["LP.Props.C10"],
         profiles=[("life", ALL_VARIANTS)],
-        R={"st": {"blacklist", "refundUsers", "unblacklist", "confirm"},
-           "xf": {"blacklist", "refundUsers"}},
-        D={"addr.bl", "addr.conf", "addr.uts", "addr.bluts", "wl", "tg", "nrw", "payers"},
+        R={"st": [(BL_EPS, None), ({"confirm"}, ["blacklist"])], "xf": {"blacklist", "refundUsers"}},
+        D={k: BL_EPS for k in ["addr.bl", "addr.conf", "addr.uts", "addr.bluts", "wl", "tg", "nrw", "payers",
+                               "addr.range", "bal.pay", "bal.fee"]},
     ),
     "C11": dict(
         title="Guarantees honoured with the holder's own tickets",
         lean=["LP.Props.C11topup"],
         profiles=[("life", GUAR)],
         R={"ret": {"distribute", "secondary"}},
-        D={"status", "addr.win"},
+        D={"status": {"distribute", "secondary"}, "addr.win": {"distribute", "secondary"}},
     ),
     "C12": dict(
         title="Guarantee reserve conserved; leftovers re-drawn",
         lean=["LP.Props.C12reserve"],
         profiles=[("life", GUAR)],
-        R={"st": {"addTicketsV1", "addTicketsV2", "blacklist", "refundUsers", "unblacklist", "deposit"},
+        R={"st": [(ALLOC_EPS | BL_EPS, RESERVE_MSGS), ({"deposit"}, ["Wrong amount"])],
            "draws": {"distribute", "secondary"}},
-        D={"nrw", "tg", "wl", "addr.uts", "addr.bluts"},
+        D={"nrw": ALLOC_EPS | BL_EPS | {"distribute", "secondary"}, "tg": ANY, "wl": ALLOC_EPS | BL_EPS,
+           "addr.uts": ALLOC_EPS | BL_EPS, "addr.bluts": BL_EPS},
     ),
     "C13": dict(
         title="Vesting is path-independent, monotone, bounded",
         lean=["LP.Props.C13"],
         profiles=[("life", ["guarV1", "guarV2"])],
-        R={"st": {"setSchedule1", "setSchedule2", "claim"}, "xf": {"claim"}},
-        D={"sched", "addr.ut", "addr.uc", "addr.claimable"},
+        R={"st": [({"setSchedule1", "setSchedule2"}, None), ({"claim"}, ["Already claimed all", "negative", "cannot subtract", "claimable - claimed", "insufficient funds"])],
+           "xf.lp": {"claim"}},
+        D={"sched": ANY, "addr.ut": {"claim"}, "addr.uc": {"claim"}, "addr.claimable": ANY},
     ),
     "C14": dict(
         title="NFT draw and fees",
         lean=["LP.Props.C14"],
         profiles=[("life", ["nft", "nftGuar"])],
-        R={"st": {"confirmNft", "selectNft", "secondary", "setNftCost"}, "sft": ANY,
-           "xf": {"claim", "claimPayment", "blacklist"}, "ret": {"selectNft", "secondary"}},
-        D={"payers", "nftw", "cnft", "cost", "avail", "addr.paid", "addr.won"},
+        R={"st": ({"confirmNft", "selectNft", "secondary", "setNftCost"}, None), "sft": ANY,
+           "xf.fee": {"claim", "claimPayment", "blacklist"}, "ret": {"selectNft", "secondary"}},
+        D={k: ANY for k in ["payers", "nftw", "cnft", "cost", "avail", "addr.paid", "addr.won", "bal.fee"]},
     ),
     "C15": dict(
         title="Privileged endpoints reject everyone but their intended callers",
         lean=["LP.Props.C15"],
         profiles=[("perm", ALL_VARIANTS), ("life", ALL_VARIANTS)],
-        R={"st": ANY},
-        D={"sup"},
+        R={"st": (ANY, PERM_MSGS)},
+        D={"sup": ANY},
     ),
     "C16": dict(
         title="Locked split",
         lean=["LP.Props.C16"],
         profiles=[("life", ["locked", "lockedGuar"])],
-        R={"lock": ANY, "xf": {"claim"}},
-        D={"lockcfg"},
+        R={"lock": ANY, "xf.lp": {"claim"}},
+        D={"lockcfg": ANY},
     ),
     "C17": dict(
         title="Sale terms frozen",
         lean=["LP.Props.C17"],
         profiles=[("life", ALL_VARIANTS)],
-        R={"st": {"setTicketPrice", "setPerTicket", "setNftCost", "setSchedule1", "setSchedule2"}},
-        D={"price", "per", "cost", "sched"},
+        R={"st": ({"setTicketPrice", "setPerTicket", "setNftCost", "setSchedule1", "setSchedule2"}, None)},
+        D={"price": ANY, "per": ANY, "cost": ANY, "sched": ANY},
     ),
     "C18": dict(
         title="Allocation",
         lean=["LP.Props.C18"],
         profiles=[("alloc", ALL_VARIANTS), ("life", ALL_VARIANTS)],
-        R={"st": {"addTickets", "addTicketsV1", "addTicketsV2"}, "ev": {"addTicketsV2"}},
-        D={"addr.range", "addr.tix", "last", "batch", "addr.uts"},
+        R={"st": (ALLOC_EPS, None), "ev": {"addTicketsV2"}},
+        D={k: ALLOC_EPS for k in ["addr.range", "addr.tix", "last", "batch", "addr.uts"]},
     ),
     "C19": dict(
         title="Pause",
         lean=["LP.Props.C19"],
         profiles=[("life", ALL_VARIANTS)],
-        R={"st": {"confirm", "filter", "select", "distribute", "claim", "pause", "unpause"}},
-        D={"paused"},
+        R={"st": [(ANY, PAUSE_MSGS), ({"pause", "unpause"}, None)]},
+        D={"paused": ANY},
     ),
     "C20": dict(
         title="Events",
         lean=["LP.Props.C20"],
         profiles=[("life", ALL_VARIANTS)],
         R={"ev": ANY},
-        D=set(),
+        D={},
     ),
 }
 
 
-def relevant(pid, ep, fields):
-    """does a disagreement (in `fields`, on endpoint `ep` or on a dump when ep is None) concern pid?"""
+def _ep_ok(eps, ep):
+    return eps == ANY or ep in eps
+
+
+def relevant(pid, d):
+    """does disagreement `d` (dict: kind, ep, fields, impl_msg, model_msg) concern property pid?"""
     p = PROPS[pid]
+    fields = d["fields"]
     if "protocol" in fields or "dump-format" in fields:
         return True
-    if ep is None:
-        return any(f in p["D"] for f in fields)
+    ep = d.get("ep")
+    if d["kind"] == "dump":
+        return any(_ep_ok(p["D"][f], ep) for f in fields if f in p["D"])
     for f in fields:
-        eps = p["R"].get(f)
-        if eps is None:
+        spec = p["R"].get(f)
+        if spec is None and f.startswith("xf."):
+            spec = p["R"].get("xf")
+        if spec is None:
             continue
-        if eps == ANY or ep in eps:
-            return True
+        if f != "st":
+            if _ep_ok(spec, ep):
+                return True
+            continue
+        specs = spec if isinstance(spec, list) else [spec]
+        msgs = (d.get("impl_msg") or "") + " | " + (d.get("model_msg") or "")
+        for (eps, frags) in specs:
+            if not _ep_ok(eps, ep):
+                continue
+            if frags is None or any(fr.lower() in msgs.lower() for fr in frags):
+                return True
     return False
